@@ -77,3 +77,11 @@ claim(
     "source-level expression extraction (sympy) per option valuation and normal-form comparison against the formulas of the statement",
     "DESIGN.md section 2 C17",
 )
+
+claim(
+    "C09",
+    "Static: decides the algebraic skeleton of the Prandtl-Glauert pipeline: the per-axis beta exponents of geometry, normals, rotational velocities and forces equal those of the property (and reduce to 1 at M = 0) in values and partials; the aero->wind matrix is a proper rotation whose first row is the free-stream direction and the back-rotation is exactly its transpose; inside CompressibleVLMStates the inner solve is wired at alpha_pg = beta_pg = 0 with transformed geometry only. Does not decide continuity in Mach or the numerical M = 0 identity of the two solvers.",
+    TB,
+    "source-level extraction of small matrices and per-axis scale factors (sympy), group connection templates",
+    "DESIGN.md section 2 C09",
+)
